@@ -25,6 +25,8 @@ CLAIMS = {
          "Sampling. IBC route: only the failure path (no counterparty chain). 'Must succeed' is asserted only for fixed-point TSS tunnels with short signal ids and enough available members at the end of the block."),
  "C09": ("§5/C09", "Rolling seed recomputed independently from the block hashes the conductor produced; for every accepted data request the committee is recomputed with an own NIST SP 800-90A HMAC-DRBG and an own implementation of the sampling specification over the model's eligible set (bonded, oracle-active, power-index order) and compared with the stored request (order included); for every signing attempt the eligible list (active, queued nonce in the model, id order) and partial Fisher-Yates are recomputed and compared; too-few-eligible must be rejected. Plus a differential run of the real sampler on tiny boundary-hitting weights per block.",
          "Sampling over (seed, id, weights) produced by histories; totals near 2^64 not reachable through bonded stake. Requests in a block after a staking transaction are skipped (power index may have moved)."),
+ "C11": ("§5/C11", "For every signing created (direct text / feeds-price / oracle-result requests, oracle results with an encoder at resolve time, tunnel packets, transition hand-over) the signed message is split as keccak(originator) | block time | signing id | route selector | kind tag | body and checked: originator hash recomputed from the request the simulator issued, time and id bound, tags = keccak(name)[:4], body decoded with independent ABI/proto decoders to exactly the on-chain data at request time (stored result, feed prices, stored packet, transition key and time, requested text), tick-encoded prices bracketed with 400-bit arithmetic (10^9*1.0001^t <= price < next), all messages of a run pairwise distinct (identical content is re-requested on purpose), module-internal content kinds rejected for users, no unattributed signing.",
+         "Sampling of contents/encoders/prices (incl. 0, 1, 2^64-1 and threshold-aimed prices). TunnelSignatureOrder is not registered as a user-decodable Content, so only the transition kind exercises the IsInternal barrier. Injectivity over all inputs is sampled, not proved."),
  "C13": ("§5/C13", "Ledger model of payers, data-source treasuries, signing members and the bandtss escrow compared with bank balances after every block; fee limits drawn at cost-1 / cost / cost+1 / missing denom, poor payers; accept => exact movement within the limit, fee-rejection => model cost really exceeds the limit; payouts exactly once to the assigned members of the final attempt of the current-group signing, nothing for FALLEN or incoming-group signatures; escrow covers unfinished paid signings. Profiles: oracle with fee-bearing data sources, TSS with retries, governance transitions.",
          "Sampling. Inflation and community tax are switched off in these profiles so that only the services move coins. Rejected transactions are atomic by the SDK's transaction semantics; the end-block creations (oracle result signing) are checked through the ledger. IBC relay-paid requests are not generated."),
  "C15": ("§5/C15", "Model of activation history, accepted reports and price submissions: every observed deactivation must be justified by a genuine miss (expired request that chose the validator, lacks its report and was made after its activation; or a current feed without a sufficiently recent price outside both grace periods); accepted MsgActivate only when inactive and past the penalty; on-chain activity flag equals the activation/deactivation history. Block times are aimed at every boundary (price time + interval, grace ends, penalty ends).",
